@@ -45,13 +45,16 @@ def stfu8_decode(s):
     return bytes(out)
 
 
-def gen_group(rng, cfg, k=None):
+def gen_group(rng, cfg, k=None, distinct=False):
     """Random attributes of the files of one duplicate group. Files that end up in one sub-group (same inode, or same
     effective isolate root) or share an inode get equal times and depth: the property leaves open whether a sub-group
     is ranked by its oldest or newest / deepest or shallowest member, and hard links share their times anyway."""
     k = k or rng.choice([2, 3, 3, 4, 4, 5])
     nin = rng.randint(1, k)
     files = [{"ino": rng.randint(1, nin), "root": rng.choice([0, 1, 2]), "kp": rng.random() < 0.25, "dp": rng.random() < 0.6} for _ in range(k)]
+    if distinct:
+        for i, f in enumerate(files):
+            f["ino"] = i + 1
     roots_on = cfg["isolate"] or cfg["cliRoots"]
     parent = list(range(k))
 
